@@ -623,3 +623,34 @@ func variants(what, line string) []variant {
 	}
 	return out
 }
+
+// TestNumericNameRespelling: names made of digits are names, compared byte for byte: "7", "007", "07"
+// and "+7" are four different names. Every use of an entity with such a name is redirected to another
+// spelling of the same number, which has no definition.
+func TestNumericNameRespelling(t *testing.T) {
+	const test = "NumericNameRespelling"
+	hx.Rule(test, "hand-written bases in which every kind of entity (comdat, global variable, alias, function, parameter, instruction result, basic block used as branch target, phi predecessor, blockaddress block and indirectbr target) has a quoted all-digit name; each use site x 4 other spellings of the same number (\"007\", \"07\", \"+7\", \"7 \" style): the respelled name is undefined. Same gate and oracle as SingleNamingFault")
+	bases := []string{
+		"$\"7\" = comdat any\n@\"7\" = global i32 0, comdat($\"7\")\n@\"8\" = alias i32, i32* @\"7\"\ndefine i32 @\"9\"(i32 %\"7\") {\n\"5\":\n  %\"6\" = add i32 %\"7\", 1\n  br label %\"4\"\n\"4\":\n  %\"3\" = phi i32 [ %\"6\", %\"5\" ], [ %\"3\", %\"4\" ]\n  %a = load i32, i32* @\"7\"\n  %b = load i32, i32* @\"8\"\n  indirectbr i8* blockaddress(@\"9\", %\"4\"), [label %\"4\"]\n}\ndefine i32 @user() {\n  %r = call i32 @\"9\"(i32 1)\n  ret i32 %r\n}\n@tbl = global i8* blockaddress(@\"9\", %\"4\")\n",
+		"define void @f(i1 %c) {\n\"10\":\n  br i1 %c, label %\"2\", label %\"33\"\n\"2\":\n  br label %\"33\"\n\"33\":\n  %\"1\" = phi i8* [ blockaddress(@f, %\"2\"), %\"10\" ], [ blockaddress(@f, %\"33\"), %\"2\" ]\n  ret void\n}\n",
+	}
+	reNum := regexp.MustCompile(`^([%@$])"(\d+)"$`)
+	for bi, x := range bases {
+		if !hx.Mine(bi) {
+			continue
+		}
+		if r := llvmx.Accept(x); !r.OK {
+			t.Fatalf("catalogue base %d is not valid: %s", bi, r.Err)
+		}
+		for _, tk := range scan(x) {
+			m := reNum.FindStringSubmatch(tk.text)
+			if m == nil || tk.def {
+				continue
+			}
+			for _, sp := range []string{"00" + m[2], "0" + m[2], "+" + m[2], m[2] + " "} {
+				f := fault{kind: "respelled-numeric-name:" + tk.site, text: x[:tk.start] + m[1] + `"` + sp + `"` + x[tk.end:]}
+				judgeFault(t, test, x, f)
+			}
+		}
+	}
+}
